@@ -141,7 +141,12 @@ def execute(plan):
                 stats["nj.knife_edge"] += 1
             else:
                 add("zero_iter.pairs", k, info)
-        bad = snap_diff(zs, ck, fields=("x", "fun", "jac", "nfev", "njev", "nit"))
+        bad = snap_diff(zs, ck, fields=("x", "fun", "jac", "nit"))
+        # counters: the checkpoint's plus the calls made since (a restart may legally re-evaluate)
+        if zs["nfev"] != ck["nfev"] + int(z.counts["fun"]):
+            bad.append("nfev")
+        if cfg["jac"] == "callable" and zs["njev"] != ck["njev"] + int(z.counts["jac"]):
+            bad.append("njev")
         if bad:
             add("zero_iter.state", k, {"fields": bad, "nit": [zs["nit"], ck["nit"]]})
         key(k, npairs, "zero", "ok" if ok and not bad else "bad")
@@ -213,6 +218,18 @@ def execute(plan):
                         info["pairs_in_checkpoint"] = npairs
                         add("reduced_maxcor.pairs", k, info)
                 key(k, npairs, "reduced%d" % m2, "ok" if ok else "bad")
+                # one iteration on the truncated memory == one iteration from a checkpoint that only
+                # holds the m2 most recent pairs (same restored history, hence bit-identical)
+                from scipy.optimize import LbfgsInvHessProduct
+
+                ck_t = Store.loads(blob)
+                ck_t["hess_inv"] = LbfgsInvHessProduct(np.array(ck["sk"][-m2:], copy=True), np.array(ck["yk"][-m2:], copy=True))
+                ra = restart_once(problem, c2, Store.loads(blob), k + 1)
+                rb = restart_once(problem, c2, ck_t, k + 1)
+                stats["activations"] += 2
+                stats["or.reduced_maxcor_iteration"] += 1
+                if ra.result_digest() != rb.result_digest():
+                    add("reduced_maxcor.next_iterate", k, {"maxcor_new": m2, "pairs_in_checkpoint": npairs})
 
     # (4) chains of restarts
     ks = sorted(j for j in R if j <= K and _valid_stop(R[j].result, j))
